@@ -37,6 +37,8 @@ const (
 	Out     = 0x7000
 	Out2    = 0x9000
 	Tmp     = 0xB000
+	Out3    = 0xD000
+	Out4    = 0xE000
 	Code    = 0x10000
 	MemSize = 0x12000
 )
@@ -57,6 +59,65 @@ type Kernel struct {
 
 //go:embed kernels/kernels.json
 var kernelsJSON []byte
+
+//go:embed kernels/templates.json
+var templatesJSON []byte
+
+type snippet struct {
+	Hex   string     `json:"hex"`
+	Insts []InstInfo `json:"insts"`
+}
+
+// Templates are the assembled snippets for generated straight-line kernels.
+type Templates struct {
+	Prologue, Epilogue snippet
+	T                  map[string]snippet
+	Names              []string
+}
+
+// LoadTemplates returns the templates (kernels/templates.json, produced by kernels/templates.py).
+func LoadTemplates() *Templates {
+	var raw struct {
+		Prologue  snippet            `json:"prologue"`
+		Epilogue  snippet            `json:"epilogue"`
+		Templates map[string]snippet `json:"templates"`
+	}
+	if err := json.Unmarshal(templatesJSON, &raw); err != nil {
+		panic(err)
+	}
+	t := &Templates{Prologue: raw.Prologue, Epilogue: raw.Epilogue, T: raw.Templates}
+	for n := range raw.Templates {
+		t.Names = append(t.Names, n)
+	}
+	sort.Strings(t.Names)
+	return t
+}
+
+// Program concatenates prologue, the named templates and the epilogue.
+func (t *Templates) Program(seq []string) *Kernel {
+	k := &Kernel{Name: strings.Join(seq, "+")}
+	add := func(s snippet) {
+		b, err := hex.DecodeString(s.Hex)
+		if err != nil {
+			panic(err)
+		}
+		base := uint64(len(k.Code))
+		for _, in := range s.Insts {
+			k.Insts = append(k.Insts, InstInfo{PC: base + in.PC, Asm: in.Asm, Size: in.Size})
+		}
+		k.Code = append(k.Code, b...)
+	}
+	add(t.Prologue)
+	for _, n := range seq {
+		s, ok := t.T[n]
+		if !ok {
+			panic("unknown template " + n)
+		}
+		add(s)
+	}
+	add(t.Epilogue)
+	return k
+}
 
 // LoadKernels returns the assembled kernels (kernels/kernels.json, produced by kernels/gen.py with llvm-mc).
 func LoadKernels(dir string) map[string]*Kernel {
@@ -95,6 +156,12 @@ func InitialMemory(k *Kernel, g Geometry) []byte {
 	le.PutUint64(m[Kernarg+24:], Tmp)
 	le.PutUint64(m[Kernarg+32:], In2)
 	le.PutUint64(m[Kernarg+40:], Out2)
+	le.PutUint64(m[Kernarg+48:], Out3)
+	le.PutUint64(m[Kernarg+56:], Out4)
+	for i := 0; i < 0x400; i++ {
+		le.PutUint32(m[Out3+4*i:], 0x0ddd0000+uint32(i))
+		le.PutUint32(m[Out4+4*i:], 0x0eee0000+uint32(i))
+	}
 	for i := 0; i < 0x800; i++ {
 		le.PutUint32(m[In+4*i:], uint32(1000+3*i))
 		le.PutUint32(m[In2+4*i:], uint32(7*i+5))
@@ -110,21 +177,23 @@ func codeObject(k *Kernel, g Geometry) (*insts.KernelCodeObject, *kernels.HsaKer
 	meta := &insts.KernelCodeObjectMeta{}
 	meta.EnableSgprKernargSegmentPtr = true
 	meta.ComputePgmRsrc2 = 1 << 7 // workgroup id x
-	meta.WFSgprCount = 32
-	meta.WIVgprCount = 16
-	meta.GroupSegmentByteSize = uint32(4 * g.WGSize)
-	meta.KernargSegmentByteSize = 48
+	meta.WFSgprCount = 64
+	meta.WIVgprCount = 32
+	meta.GroupSegmentByteSize = uint32(ldsBytes(g))
+	meta.KernargSegmentByteSize = 64
 	meta.KernelCodeEntryByteOffset = 0
 	co := &insts.KernelCodeObject{KernelCodeObjectMeta: meta, Data: k.Code}
 	pkt := &kernels.HsaKernelDispatchPacket{
 		WorkgroupSizeX: uint16(g.WGSize), WorkgroupSizeY: 1, WorkgroupSizeZ: 1,
 		GridSizeX: uint32(g.WGSize * g.NumWG), GridSizeY: 1, GridSizeZ: 1,
-		GroupSegmentSize: uint32(4 * g.WGSize),
+		GroupSegmentSize: uint32(ldsBytes(g)),
 		KernelObject:     Code,
 		KernargAddress:   Kernarg,
 	}
 	return co, pkt
 }
+
+func ldsBytes(g Geometry) int { return 16*g.WGSize + 64 }
 
 func workGroups(k *Kernel, g Geometry) []*kernels.WorkGroup {
 	co, pkt := codeObject(k, g)
@@ -262,8 +331,12 @@ func RunTiming(x *explore.Exec, k *Kernel, g Geometry, o TimingOpts) (res *Resul
 
 	// which wavefront does a data address belong to? one dword per work-item in every buffer
 	wfOfAddr := func(a uint64) ([2]int, bool) {
-		for _, base := range []uint64{In, In2, Out, Out2, Tmp} {
-			if a >= base && a < base+0x2000 {
+		for _, base := range []uint64{In, In2, Out, Out2, Tmp, Out3, Out4} {
+			lim := uint64(0x2000)
+			if base >= Out3 {
+				lim = 0x1000
+			}
+			if a >= base && a < base+lim {
 				gid := int(a-base) / 4
 				return [2]int{gid / g.WGSize, gid % g.WGSize / 64}, true
 			}
@@ -348,7 +421,7 @@ func RunTiming(x *explore.Exec, k *Kernel, g Geometry, o TimingOpts) (res *Resul
 			slot := next % o.Resident
 			for j, wf := range wg.Wavefronts {
 				n := slot*len(wg.Wavefronts) + j
-				rb = rb.AddWf(protocol.WfDispatchLocation{Wavefront: wf, SIMDID: n % 4, SGPROffset: n * 32 * 4, VGPROffset: (n / 4) * 16 * 4, LDSOffset: slot * 4 * g.WGSize})
+				rb = rb.AddWf(protocol.WfDispatchLocation{Wavefront: wf, SIMDID: n % 4, SGPROffset: n * 64 * 4, VGPROffset: (n / 4) * 32 * 4, LDSOffset: slot * ldsBytes(g)})
 			}
 			req := rb.Build()
 			mapIDs[req.ID] = next
